@@ -5,6 +5,7 @@ use std::sync::atomic::{AtomicBool, AtomicUsize, Ordering};
 use std::sync::{Arc, Mutex};
 use vcore::driver::{self, CheckDef, Ctx, PartResult, PartSpec};
 use vcore::json;
+use vcore::vseq;
 use vcore::vsched::{self, body, fail, Body, Cfg, Log, Scenario, Verdict};
 
 static META: Metadata<'static> = Metadata::new("t", Level::INFO, None);
@@ -336,6 +337,82 @@ fn second_instance_part(res: &mut PartResult) {
     res.sample(json!({"history": "A: call parks inside the recorder; into_inner waits; 5 emissions; release; recovered. B: fresh instance, 3 emissions", "expected": "A's recorder saw 6 calls, B's 3"}));
 }
 
+/// Handles obtained through the wrapper and KEPT by the caller (a cached `Counter`, a `Histogram` in a static) do not
+/// keep the wrapped recorder alive: with such handles still around, dropping the recovery handle drops the recorder
+/// (once, at once), `into_inner` returns although the handles exist, and the wrapper is inert afterwards. All orders of
+/// {keep a counter, keep a gauge, keep a histogram} x {drop handle, into_inner}.
+fn kept_handles_part(res: &mut PartResult) {
+    res.engine = "E3 kept-handle subsets x recovery kind on the real wrapper (into_inner under a 10 s watchdog)".into();
+    let mut states = vseq::States::new();
+    for kept in 0..8u8 {
+        for recover in [false, true] {
+            res.executions += 1;
+            res.transitions += 6;
+            let st: Arc<Stats> = Default::default();
+            let (w, h) = RecoverableRecorder::new(Dbl { magic: 0x5eed, st: st.clone() }).verif_build();
+            let cfg = json!({"kept": kept, "recover": recover});
+            let c = w.register_counter(&Key::from_name("c"), &META);
+            let g = w.register_gauge(&Key::from_name("g"), &META);
+            let hi = w.register_histogram(&Key::from_name("h"), &META);
+            let mut keep_c = None;
+            let mut keep_g = None;
+            let mut keep_h = None;
+            if kept & 1 != 0 { keep_c = Some(c); }
+            if kept & 2 != 0 { keep_g = Some(g); }
+            if kept & 4 != 0 { keep_h = Some(hi); }
+            let before = st.entered.lock().unwrap().len();
+            if before != 3 {
+                res.violation("emission-lost-while-handle-alive", format!("3 registrations through the wrapper, the recorder saw {}", before), cfg.clone());
+            }
+            if recover {
+                let (tx, rx) = std::sync::mpsc::channel();
+                std::thread::spawn(move || {
+                    let r = h.into_inner();
+                    let _ = tx.send(r);
+                });
+                match rx.recv_timeout(std::time::Duration::from_secs(10)) {
+                    Ok(r) => {
+                        if st.drops.load(Ordering::SeqCst) != 0 {
+                            res.violation("recorder-dropped-wrong-number-of-times", "the recorder was dropped although into_inner handed it back".into(), cfg.clone());
+                        }
+                        drop(r);
+                    }
+                    Err(_) => {
+                        res.violation("recovery-never-completes", format!("into_inner did not return within 10 s although no emission is executing: the caller still holds handles (counter {}, gauge {}, histogram {}) obtained through the wrapper earlier", kept & 1 != 0, kept & 2 != 0, kept & 4 != 0), cfg.clone());
+                        continue;
+                    }
+                }
+            } else {
+                drop(h);
+            }
+            let drops = st.drops.load(Ordering::SeqCst);
+            if drops != 1 {
+                res.violation("recorder-dropped-wrong-number-of-times", format!("after the recovery handle was {} the recorder has been dropped {} times (expected 1) while the caller still holds handles (counter {}, gauge {}, histogram {}) obtained through the wrapper earlier", if recover { "consumed by into_inner and the recorder dropped" } else { "dropped" }, drops, kept & 1 != 0, kept & 2 != 0, kept & 4 != 0), cfg.clone());
+            }
+            // inert afterwards
+            let _ = w.register_counter(&Key::from_name("late"), &META);
+            w.describe_histogram("late".into(), None, "d".into());
+            let _ = w.register_histogram(&Key::from_name("late"), &META);
+            let after = st.entered.lock().unwrap().len();
+            if after != before {
+                res.violation("wrapper-not-inert-after-recovery", format!("{} emissions reached the recorder after the recovery handle was gone (kept handles: counter {}, gauge {}, histogram {})", after - before, kept & 1 != 0, kept & 2 != 0, kept & 4 != 0), cfg.clone());
+            }
+            // the kept handles stay usable on their own (they are the inner recorder's handles)
+            if let Some(c) = &keep_c { c.increment(1); }
+            if let Some(g) = &keep_g { g.set(1.0); }
+            if let Some(hh) = &keep_h { hh.record(1.0); }
+            states.add(&(kept, recover, drops));
+            drop((keep_c, keep_g, keep_h));
+            if st.drops.load(Ordering::SeqCst) > 1 {
+                res.violation("recorder-dropped-wrong-number-of-times", "the recorder was dropped again when the kept handles went away".into(), cfg.clone());
+            }
+        }
+    }
+    res.states = states.len();
+    res.distinct_outcomes = states.len();
+    res.sample(json!({"kept": "histogram", "then": "drop(recovery handle)", "expected": "recorder dropped once, at once; later emissions inert"}));
+}
+
 fn install_fail_part(res: &mut PartResult) {
     res.engine = "E3 single history on the real process-global recorder".into();
     struct Nop;
@@ -526,7 +603,7 @@ fn install_ok_part(res: &mut PartResult, recover: bool) {
 
 fn parts(ctx: &Ctx) -> Vec<PartSpec> {
     let e1 = |s: &str, pb: u64| PartSpec::new(&format!("e1-{}-pb{}", s, pb), json!({"e1": s, "pb": pb}));
-    let mut v = vec![PartSpec::new("install-fails", json!({"install": true})), PartSpec::new("install-ok-recover", json!({"install_ok": true})), PartSpec::new("install-ok-drop", json!({"install_ok": false})), PartSpec::new("second-instance-after-contended-recovery", json!({"second": true}))];
+    let mut v = vec![PartSpec::new("install-fails", json!({"install": true})), PartSpec::new("install-ok-recover", json!({"install_ok": true})), PartSpec::new("install-ok-drop", json!({"install_ok": false})), PartSpec::new("second-instance-after-contended-recovery", json!({"second": true})), PartSpec::new("kept-handles", json!({"kept": true}))];
     if ctx.quick() {
         v.extend([e1("recover", 3), e1("drop", 3), e1("recover-1emitter", 4), e1("recover-unwinding", 3), e1("drop-unwinding", 3)]);
         let mut imp = e1("recover", 2);
@@ -543,6 +620,10 @@ fn run(ctx: &Ctx, spec: &PartSpec) -> PartResult {
     let mut res = PartResult::new(&spec.name, "");
     if spec.arg["second"].as_bool() == Some(true) {
         second_instance_part(&mut res);
+        return res;
+    }
+    if spec.arg["kept"].as_bool() == Some(true) {
+        kept_handles_part(&mut res);
         return res;
     }
     if spec.arg["install"].as_bool() == Some(true) {
@@ -575,7 +656,7 @@ fn main() {
     driver::main(CheckDef {
         prop: "C20",
         level: "model_checking",
-        rule: "every SC interleaving (pb-bounded) of emitting threads using the wrapper returned by RecoverableRecorder (real WeakRecorder / RecoveryHandle code; Arc clone/drop/downgrade/upgrade/try_unwrap are scheduling points via the facade Arc, plus one point inside every recorder call) with a thread calling into_inner() or dropping the handle, emissions also made by a destructor while a caught panic unwinds through its frame; the double counts calls in flight, calls entering after the end, drops; epilogue emissions must be inert; plus process-level histories: a failing install(), and a successful install() followed by the six operations through the facade macros with unusual but legal arguments (empty description carrying only a unit, empty name, labels, explicit target and level; normally and from a destructor during unwinding; what reaches the recorder is compared field by field), a second (failing) install, a scripted history with two wrapper instances in one process (a recovery of the first that has to wait for a call in flight while further emissions arrive, then a fresh second instance), into_inner() or drop(handle), and the six operations again; distinct = distinct (emissions that reached the recorder) outcomes",
+        rule: "every SC interleaving (pb-bounded) of emitting threads using the wrapper returned by RecoverableRecorder (real WeakRecorder / RecoveryHandle code; Arc clone/drop/downgrade/upgrade/try_unwrap are scheduling points via the facade Arc, plus one point inside every recorder call) with a thread calling into_inner() or dropping the handle, emissions also made by a destructor while a caught panic unwinds through its frame; the double counts calls in flight, calls entering after the end, drops; epilogue emissions must be inert; plus process-level histories: a failing install(), and a successful install() followed by the six operations through the facade macros with unusual but legal arguments (empty description carrying only a unit, empty name, labels, explicit target and level; normally and from a destructor during unwinding; what reaches the recorder is compared field by field), a second (failing) install, a scripted history with two wrapper instances in one process (a recovery of the first that has to wait for a call in flight while further emissions arrive, then a fresh second instance), into_inner() or drop(handle), and the six operations again; distinct = distinct (emissions that reached the recorder) outcomes; kept handles: for every subset of {counter, gauge, histogram} handles obtained through the wrapper and kept by the caller x {drop the recovery handle, into_inner}: the recorder is dropped once and at once (or handed back), into_inner returns (10 s watchdog), later emissions are inert",
         assumptions: &["sequential consistency", "the wrapper is obtained through the guarded verif_build() (the same private build() that install() uses) instead of being installed as the process-global recorder"],
         parts,
         run,
